@@ -229,7 +229,7 @@ Proof.
   assert (Inv0 : probe_inv st) by (split; assumption).
   assert (NoLeader : ps_group st = None -> forall i g, nth_error (ps_reqs st) i <> Some (PLeader g)).
   { intros Gn i g E. destruct (I1 i g E) as [G _]. rewrite Gn in G. discriminate. }
-  destruct a as [r|r o|r]; unfold probe_step.
+  destruct a as [r|r o|r|tg]; unfold probe_step.
   - destruct (nth_error (ps_reqs st) r) as [q|] eqn:E; [|exact Inv0].
     destruct q; try exact Inv0.
     destruct (ps_fs st); try (cbn; leaders_unchanged E I1 I2).
@@ -260,6 +260,10 @@ Proof.
     split; cbn; intros; exfalso; eapply None'; eauto.
   - destruct (nth_error (ps_reqs st) r) as [q|] eqn:E; [|exact Inv0].
     destruct q as [ | |g regs| | | | ]; try exact Inv0.
+    destruct (g_timed (gen_of st g)) eqn:Tm.
+    { (* a timed-out generation: its followers are served or shed, nobody is elected *)
+      rewrite orb_true_r. cbn [negb]. destruct (ps_fs st); cbn; leaders_unchanged E I1 I2. }
+    rewrite orb_false_r.
     destruct (g_done (gen_of st g)) eqn:Dn; cbn [negb]; [|exact Inv0].
     destruct (ps_fs st); try (cbn; leaders_unchanged E I1 I2).
     destruct (regs >=? max_probe_regroups); [cbn; leaders_unchanged E I1 I2|].
@@ -290,6 +294,16 @@ Proof.
         -- exfalso. eapply (NoLeader eq_refl); eauto.
         -- exfalso. eapply (NoLeader eq_refl); eauto.
         -- exfalso. eapply (NoLeader eq_refl); eauto.
+  - (* the deadline of a generation passes: requests and the group table are untouched,
+       the generation stays not-done, so its leader is still the one in flight *)
+    destruct ((N.to_nat tg <? length (ps_gens st))%nat && negb (g_done (gen_of st tg))) eqn:C; [|exact Inv0].
+    apply andb_true_iff in C as [C1 C2]. apply Nat.ltb_lt in C1.
+    split; cbn; [|exact I2].
+    intros i g A. destruct (I1 i g A) as [G [Nd Ln]]. repeat split; auto.
+    + unfold gen_of in *; cbn. destruct (Nat.eq_dec (N.to_nat tg) (N.to_nat g)) as [Eq|Ne].
+      * rewrite <- Eq. rewrite nth_set_nth_same by exact C1. reflexivity.
+      * rewrite nth_set_nth_other by exact Ne. exact Nd.
+    + now rewrite set_nth_length.
 Qed.
 
 (* The first retry after a backoff is led by a single probe: for any number of
@@ -312,4 +326,63 @@ Example probe_example :
               [AArrive 0; AArrive 1; AArrive 2; AArrive 3; AFinish 0 ONothing; AWake 2; AWake 1; AArrive 4;
                AWake 3; AFinish 2 OCovering; AWake 1; AWake 3; AWake 4]%nat in
   (ps_reqs st, ps_elected st, in_flight st) = ([PFinished; PServed; PFinished; PServed; PServed], 2, 0%nat).
+Proof. vm_compute. reflexivity. Qed.
+
+Lemma probe_inv_run n sched : probe_inv (probe_run (probe_init n) sched).
+Proof.
+  assert (G : forall st, probe_inv st -> probe_inv (probe_run st sched)).
+  { unfold probe_run. induction sched as [|a r IH]; intros st I; cbn; [exact I|]. apply IH. now apply probe_inv_step. }
+  apply G, probe_inv_init.
+Qed.
+
+(* ---- the waitgroup's generation timeout (15 s in production): an abandoned leader *)
+(* a timeout touches neither the requests nor the group table nor the probe count *)
+Lemma timeout_changes_no_request st g :
+  ps_reqs (probe_step st (ATimeout g)) = ps_reqs st /\ ps_group (probe_step st (ATimeout g)) = ps_group st /\
+  ps_elected (probe_step st (ATimeout g)) = ps_elected st /\ ps_fs (probe_step st (ATimeout g)) = ps_fs st.
+Proof. unfold probe_step. destruct (_ && _); cbn; auto. Qed.
+
+(* a follower of a timed-out generation that wakes up is served from the failure
+   cache or shed: it is never elected, never regrouped, never sent downstream *)
+Lemma timed_follower_is_terminal st r g regs :
+  nth_error (ps_reqs st) r = Some (PFollower g regs) -> g_timed (gen_of st g) = true ->
+  let st' := probe_step st (AWake r) in
+  (nth_error (ps_reqs st') r = Some PServed \/ nth_error (ps_reqs st') r = Some PShed) /\
+  ps_elected st' = ps_elected st /\ ps_group st' = ps_group st /\ ps_gens st' = ps_gens st.
+Proof.
+  intros E T. cbn zeta. unfold probe_step. rewrite E, T, orb_true_r. cbn [negb].
+  assert (Lr : (r <? length (ps_reqs st))%nat = true) by (apply Nat.ltb_lt; apply nth_error_Some; now rewrite E).
+  cbn. rewrite nth_error_set_nth, Nat.eqb_refl, Lr. destruct (ps_fs st); auto.
+Qed.
+
+(* a new probe is elected only when nobody is in flight — in particular never
+   while an abandoned (timed-out) leader is still registered *)
+Lemma election_only_when_idle st a : probe_inv st ->
+  ps_elected (probe_step st a) <> ps_elected st -> in_flight st = O.
+Proof.
+  intros [I1 I2] Hne.
+  assert (NoL : ps_group st = None -> in_flight st = O).
+  { intro Gn. unfold in_flight. destruct (filter _ (ps_reqs st)) as [|q t] eqn:Fl; [reflexivity|exfalso].
+    assert (Iq : In q (filter (fun q => match q with PLeader _ => true | _ => false end) (ps_reqs st))) by (rewrite Fl; now left).
+    apply filter_In in Iq as [Iq Lq]. destruct q; try discriminate.
+    apply In_nth_error in Iq as [j Ej]. destruct (I1 j gen Ej) as [G _]. congruence. }
+  destruct (ps_group st) as [g0|] eqn:Gr; [exfalso|now apply NoL].
+  apply Hne. unfold probe_step. destruct a as [r|r o|r|tg].
+  - destruct (nth_error (ps_reqs st) r) as [[]|]; try reflexivity. destruct (ps_fs st); try reflexivity. rewrite Gr. reflexivity.
+  - destruct (nth_error (ps_reqs st) r) as [[]|]; reflexivity.
+  - destruct (nth_error (ps_reqs st) r) as [[]|]; try reflexivity.
+    destruct (negb _); [reflexivity|]. destruct (g_timed _); [reflexivity|].
+    destruct (ps_fs st); try reflexivity. destruct (_ >=? _); [reflexivity|].
+    destruct (g_next _); [reflexivity|]. rewrite Gr. destruct (_ =? _)%N; reflexivity.
+  - destruct (_ && _); reflexivity.
+Qed.
+
+Example probe_timeout_example :
+  (* five requests; the leader is abandoned (its generation times out); the followers are
+     shed, so is a late arrival; when the leader finally re-records the failure the next
+     request is served from the cache — one probe in all *)
+  let st := probe_run (probe_init 6)
+              [AArrive 0; AArrive 1; AArrive 2; ATimeout 0; AWake 1; AWake 2; AArrive 3; AWake 3;
+               AFinish 0 OCovering; AArrive 4; AArrive 5]%nat in
+  (ps_reqs st, ps_elected st, in_flight st) = ([PFinished; PShed; PShed; PShed; PServed; PServed], 1, 0%nat).
 Proof. vm_compute. reflexivity. Qed.
